@@ -43,6 +43,8 @@ func propC02(c *Ctx) {
 	// explicit '( )' against implicit context: the parenthesis is layout, for the core and for the scanner
 	c.ruleOpenForEveryKind("C02-OPEN-FOR-EVERY-KIND")
 	c.ruleRulesEverywhere("C02-RULES-EVERYWHERE")
+	c.ruleDTOFieldsFilled("C02-DTO-FIELDS-FILLED")
+	c.ruleParamNotGated("C02-PARAM-NOT-GATED")
 	c.rulePlaceWhenComplete("C02-PLACE-WHEN-COMPLETE")
 	c.ruleLoopsCoverAll("C02-LOOPS-COVER-ALL")
 	if m := c.E1Base(); m != nil {
